@@ -6,7 +6,6 @@
 //   dec_lit_0_01() / dec_lit_0_0001()       the values of the proc-macro literals `dec!(0.01)` / `dec!(0.0001)`
 //                                           (radix-common-derive; cannot be expanded here): 10^16 / 10^14 attos
 //   min(a, b)                               core::cmp::min on Decimal (derived Ord on the inner I192)
-//   opt_ref_cloned                          not needed (vstd has Option::cloned)
 // Not to be included together with shims/decimal_attos.rs or shims/decimal_validator_ext.rs (they declare
 // their own I192 / attos).
 pub mod decimal_c06 {
